@@ -559,6 +559,9 @@ fn long_domains(rng: &mut Rng) -> Vec<Vec<u8>> {
         v.push(format!("\u{E9}{}", a(n - 1)));
         v.push(format!("{}\u{E9}", a(n - 1)));
     }
+    // F-C10-1: at most 1000 scalar values, Punycode form longer than 2000 bytes (accepted; the result is rejected)
+    v.push(long_label_witness());
+    v.push(format!("a.{}", long_label_witness()));
     for n in [1996, 1999, 2000, 2001, 2004] {
         v.push(format!("xn--{}", a(n)));
         v.push(format!("xn--{}\u{E9}", a(n)));
@@ -920,6 +923,31 @@ fn adapter_facts(rep: &mut Report, rng: &mut Rng, thorough: bool, sources: &[Str
         }
         cp += step;
     }
+    // premises of the corrected idempotence / case statements (Proofs/Idna_C10b_Stmt.v): no ASCII character is a
+    // combining mark (AsciiNoMark); the characters of a pass-through label have the bidi classes under which the bidi
+    // rule accepts every such label (PassBidi: a-z can start, continue and end an LTR label and are not NSM, 0-9 can
+    // continue and end one, '-' can continue one)
+    {
+        let ad = idna_adapter::Adapter::new();
+        for c in 0u8..128 {
+            let ch = c as char;
+            let req = format!("adapter ok_ascii_nomark {:x}", c);
+            rep.case("adapter", &req, "1", if !ad.is_mark(ch) { "1" } else { "0" }, true, "adapter|ok_ascii_nomark");
+            let need: u32 = if ch.is_ascii_lowercase() {
+                0b101011
+            } else if ch.is_ascii_digit() {
+                0b101000
+            } else if ch == '-' {
+                0b100000
+            } else {
+                continue;
+            };
+            let bits = u32::from_str_radix(&oracle("bc", &hexl([c as u32])), 16).unwrap_or(0);
+            let holds = bits & need == need && bits & 0b100 == 0;
+            let req = format!("adapter ok_pass_bidi {:x}", c);
+            rep.case("adapter", &req, "1", if holds { "1" } else { "0" }, true, "adapter|ok_pass_bidi");
+        }
+    }
     let mut n = 0u64;
     for t in &texts {
         for (fact, holds) in adapter_fact_checks(t) {
@@ -929,7 +957,7 @@ fn adapter_facts(rep: &mut Report, rng: &mut Rng, thorough: bool, sources: &[Str
         }
     }
     rep.notes.push(format!(
-        "adapter premises sampled on the real idna_adapter: {} texts, {} fact instances (nvnotrunc, adapternp, adapterusv, ok_ascii, ok_case, ok_stable, ok_mn_idem, ok_fffd, ok_nv_idem; H0 = the empty text is among them)",
+        "adapter premises sampled on the real idna_adapter: {} texts, {} fact instances (nvnotrunc, adapternp, adapterusv, ok_ascii, ok_case, ok_stable, ok_mn_idem, ok_fffd, ok_nv_idem, and on the 128 ASCII characters ok_ascii_nomark, ok_pass_bidi; H0 = the empty text is among them)",
         texts.len(),
         n
     ));
@@ -1032,6 +1060,20 @@ fn known12(d: &[u8], deny: &str, hy: &str) -> bool {
     }
 }
 
+/// Known_C10_long (F-C10-1; Coq: Proofs/Idna_C10b_Long.v): some dot-separated label of a ToASCII RESULT starts with
+/// xn-- (any case) and has more than 2000 (PUNYCODE_DECODE_MAX_INPUT_LENGTH) bytes after it.  check_label caps a
+/// non-ASCII label at 1000 scalar values only, whose Punycode form can be longer; such a result is rejected when fed back.
+fn known10_long(r: &str) -> bool {
+    r.split('.').any(|l| {
+        let b = l.as_bytes();
+        b.len() > 4 + 2000 && b[..4].eq_ignore_ascii_case(b"xn--")
+    })
+}
+/// the 1000 ideographs U+4E00 + 20*i: the witness of F-C10-1
+fn long_label_witness() -> String {
+    (0..1000u32).map(|i| char::from_u32(0x4E00 + 20 * i).unwrap()).collect()
+}
+
 // ---------------------------------------------------------------- the properties on the implementation
 fn deny_members(d: &str) -> Vec<u8> {
     // reference membership, independent of the implementation: what the documentation of the
@@ -1086,7 +1128,7 @@ fn prop_c10(b: &[u8], rng: &mut Rng) -> Option<String> {
                     if borrowed && r.as_bytes() != b {
                         return Some(format!("to_ascii({},{},{}): borrowed result differs from the input", d, h, n));
                     }
-                    if !known12(b, d, h) {
+                    if !known10_long(&r) {
                         match Uts46::new().to_ascii(r.as_bytes(), deny_of(d), hy_of(h), dns_of(n)) {
                             Ok(r2) if r2 == r => {}
                             other => return Some(format!("to_ascii({},{},{}) = {:?} is not a fixed point: {:?}", d, h, n, r, other.map(|c| c.into_owned()).ok())),
@@ -1211,7 +1253,7 @@ fn prop_c12(b: &[u8]) -> Option<String> {
                 Ok(a) => a.into_owned(),
                 Err(_) => continue,
             };
-            if known12(b, d, h) {
+            if known12(b, d, h) || known10_long(&a) {
                 continue;
             }
             let (u, ue) = Uts46::new().to_unicode(b, deny_of(d), hy_of(h));
@@ -1345,6 +1387,31 @@ fn run_known(_args: &Args) -> Report {
             Ok((t, e)) => (format!("to_user_interface = ({:?}, is_err {})", t, e), a && !e),
         };
         rep.known.push(("F-C11-2".into(), reproduces && known11(input.as_bytes(), "E", "a"), format!("to_ascii({:?}) is_err = {}; {}", input, a, obs)));
+    }
+    // F-C10-1: a label of 1000 scalar values whose Punycode form is longer than 2000 bytes: accepted, the result is not
+    {
+        let input = long_label_witness();
+        let a = Uts46::new().to_ascii(input.as_bytes(), AsciiDenyList::EMPTY, Hyphens::Allow, DnsLength::Ignore).map(|c| c.into_owned());
+        let (a2_err, ua_err, class) = match &a {
+            Ok(r) => (
+                Uts46::new().to_ascii(r.as_bytes(), AsciiDenyList::EMPTY, Hyphens::Allow, DnsLength::Ignore).is_err(),
+                Uts46::new().to_unicode(r.as_bytes(), AsciiDenyList::EMPTY, Hyphens::Allow).1.is_err(),
+                known10_long(r),
+            ),
+            Err(_) => (false, false, false),
+        };
+        let reproduces = a.is_ok() && a2_err && ua_err && class;
+        rep.known.push((
+            "F-C10-1".into(),
+            reproduces,
+            format!(
+                "to_ascii(1000 ideographs U+4E00+20i) is_ok = {}, result length = {}; to_ascii of the result is_err = {}; to_unicode of the result is_err = {}",
+                a.is_ok(),
+                a.as_ref().map(|r| r.len()).unwrap_or(0),
+                a2_err,
+                ua_err
+            ),
+        ));
     }
     // F-C12-1
     {
